@@ -250,6 +250,20 @@ def c05(tier, seed):
     })
 
 
+def c06(tier, seed):
+    return _verus_prop("C06", tier, seed, [("layout_tests", None, None)], {
+        "trusted_base": ["extraction rules incl. R18 (closure and statement extraction) and span substitutions; env/layout_tests_env.rs: each assertion template (const-block / #[test] fn, offset_of! / addr_of! form) is an env constructor that records WHAT it asserts (field, number); message strings irrelevant",
+                         "libclang's numbers (record size/alignment, field bit offsets) are the C compiler's for the selected target"],
+        "functions_under_contract": ["bindgen/codegen/mod.rs: the per-member offset-assertion generator (filter_map closure) and the layout-assertion block of <CompInfo as CodeGenerator>::codegen (both extracted by rule R18); <TemplateInstantiation as CodeGenerator>::codegen (whole function)"],
+        "assumptions": [
+            "for structs/unions generated by CompInfo::codegen: with layout tests on, a known layout and no forward declaration exactly one assertion item is emitted; it asserts the size and the alignment libclang reported and embeds one offset assertion for every named data member with a known offset (= clang's bit offset / 8), none for bit-field units, none at all for opaque types; with layout tests off, nothing is emitted",
+            "template instantiations: a size+alignment assertion (libclang's numbers) is emitted exactly when layout tests are on, the instantiation is not opaque, uses no unbound template parameter and has a layout",
+            "the block is reached only when the item has no template parameters (the surrounding `if all_template_params.is_empty()` is not part of the extracted statement)",
+        ],
+        "unverified": ["that the field list handed to the closure is complete; targets other than the host (the numbers are whatever libclang reports for the target); that rustc evaluates the emitted const expressions as intended"],
+    })
+
+
 def c07(tier, seed):
     def extra():
         o1, c1 = units_incrate.run_spec(units_incrate.lattice_spec() + units_incrate.subscriptions_spec())
@@ -300,4 +314,4 @@ def c09(tier, seed):
     })
 
 
-PROPS = {"C02": c02, "C04": c04, "C05": c05, "C07": c07, "C08": c08, "C09": c09, "C03": c03, "C10": c10, "C12": c12, "C14": c14}
+PROPS = {"C02": c02, "C04": c04, "C05": c05, "C06": c06, "C07": c07, "C08": c08, "C09": c09, "C03": c03, "C10": c10, "C12": c12, "C14": c14}
